@@ -222,6 +222,18 @@ func anyOf(sels ...Sel) Sel {
 	}
 }
 
+// allOf is the intersection of selectors.
+func allOf(sels ...Sel) Sel {
+	return func(in ssa.Instruction) bool {
+		for _, s := range sels {
+			if !s(in) {
+				return false
+			}
+		}
+		return true
+	}
+}
+
 // callTo matches call instructions (Call/Defer/Go) whose resolved callee is
 // one of objs: statically, by interface-method identity, or because the
 // static callee implements a listed interface method.
